@@ -27,12 +27,13 @@ Definition C05_check (c : C05_case) : verdict :=
   | Ok r =>
       if clashb d o then PROPFAIL "type-clash-not-reported" else
       if negb (res_eqb m (Ok r)) then DIVERGE "merge-result" else
-      if negb (Hb d o l) then SKIP "outside-H" else
+      if negb (H1b d o l) then SKIP "outside-H" else
+      let suffix := if negb (Hb d o l) then "-crosskey" else if negb (null_okb d o l) then "-null-over-listmap" else "" in
       match first_fail [("containment", containsb d r);
                         ("removal", removedb d o l r);
                         ("preservation", preservedb d o l r);
                         ("idempotence", res_eqb (c_impl2 c) (Ok r))] with
-      | Some n => PROPFAIL n
+      | Some n => PROPFAIL (n ++ suffix)
       | None => OK
       end
   end.
